@@ -150,17 +150,26 @@ def _table(ctx) -> None:
             key_loop = lp.node
             itr = lp.iter
             order_ok = False
+            colv = revv = None
             if itr is not None and itr[0] == "call" and itr[1] == ("name", "reversed") and len(itr[2]) == 1:
                 z = _seq_of(it, itr[2][0])
                 if z[0] == "call" and z[1] == ("name", "zip") and len(z[2]) == 2 and not z[3]:
                     RES, REV = z[2]
                     order_ok = True
+                    elem = ("elem", itr, Lp)
+                    colv, revv = ("sub", elem, const(0)), ("sub", elem, const(1))
+            elif lp.domain is not None and lp.domain[0] == "tuple" and len(lp.domain[1]) == 2 and itr is not None and itr[0] == "call" \
+                    and itr[1] == ("name", "zip"):
+                # zip(reversed(keys), reversed(flags)): the same pairs in the same (last-first) order when both have one entry per key
+                d0, d1 = lp.domain[1]
+                if all(d[0] == "call" and d[1] == ("name", "reversed") and len(d[2]) == 1 for d in (d0, d1)):
+                    RES, REV = _seq_of(it, d0[2][0]), _seq_of(it, d1[2][0])
+                    order_ok = True
+                    colv, revv = ("elem", d0, Lp), ("elem", d1, Lp)
             if not order_ok or len(se.loops) != 1:
                 problems.append(f"keys are applied in the order `{sh(itr, 80)}`, expected reversed(list(zip(<resolved keys>, <reverse flags>))): the "
                                 f"last key first, so that earlier keys dominate (stable sorts)")
             else:
-                elem = ("elem", itr, Lp)
-                colv, revv = ("sub", elem, const(0)), ("sub", elem, const(1))
                 kf, rk = _sort_kwargs(se.term)
                 if se.term[2]:
                     problems.append("positional arguments to .sort()")
@@ -179,9 +188,7 @@ def _table(ctx) -> None:
                         flag, val = r[1]
                         if not (val[0] == "sub" and val[2] == arg and val[1] in (("attr", colv, "_underlying"), colv)):
                             problems.append(f"the key function reads `{sh(val, 60)}`, not THIS key column's value at the row (bound per pass)")
-                        revs_in_flag = [t for t in subterms(flag) if t[0] == "sub" and t[1][0] == "elem" and t[2] == const(1)]
-                        others = [t for t in revs_in_flag if t != revv]
-                        if others or revv not in list(subterms(flag)):
+                        if revv not in list(subterms(flag)):
                             problems.append("the key function's None flag does not use this key's own reverse flag (bound per pass)")
     for e in it.events:
         if e.kind == "call" and callee(e.term) == "reversed" and e.term[2] and e.term[2][0] == ix:
@@ -229,19 +236,45 @@ def _table(ctx) -> None:
                 forms.append(t)
         leaves(REV)
         kinds = set()
-        for t in forms:
+
+        def is_scalar_form(t) -> bool:
             if t[0] == "bin" and t[1] == "Mult":
                 for a, b in ((t[2], t[3]), (t[3], t[2])):
                     if a[0] == "obj" and it.objs[a[1]].init == (rev_param,) and KEYS is not None \
                             and b == ("call", ("name", "len"), (KEYS,), ()):
-                        kinds.add("scalar")
+                        return True
+            return False
+        for t in list(forms):
+            if is_scalar_form(t):
+                kinds.add("scalar")
             elif t[0] == "obj" and it.objs[t[1]].kind == "listcomp":
                 ev = [e for e in it.events if e.kind == "elem" and e.term == t]
+                ok_ = False
                 if len(ev) == 1:
                     lps = [L for L in ev[0].loops if L not in it.objs[t[1]].loops]
-                    if len(lps) == 1 and it.loops[lps[0]].iter == rev_param and ev[0].conds == it.objs[t[1]].conds \
-                            and ev[0].value == ("call", ("name", "bool"), (("elem", rev_param, lps[0]),), ()):
-                        kinds.add("sequence")
+                    if len(lps) == 1 and ev[0].conds == it.objs[t[1]].conds:
+                        src = it.loops[lps[0]].iter
+                        if ev[0].value == ("call", ("name", "bool"), (("elem", src, lps[0]),), ()):
+                            srcs = []
+
+                            def lv(x):
+                                if x[0] == "ifexp":
+                                    lv(x[2]); lv(x[3])
+                                else:
+                                    srcs.append(x)
+                            lv(src)
+                            for x in srcs:
+                                if x == rev_param:
+                                    kinds.add("sequence")
+                                    ok_ = True
+                                elif is_scalar_form(x):
+                                    kinds.add("scalar")
+                                    ok_ = True
+                                else:
+                                    kinds.add("?" + sh(x, 40))
+                                    ok_ = True
+                if not ok_:
+                    kinds.add("?" + sh(t, 40))
             elif t[0] == "unbound":
                 continue
             else:
